@@ -988,11 +988,195 @@ def gen_dims(repo):
     return o
 
 
+
+# ----------------------------------------------------------------------------------
+# target: lasreader.py read_points / seek cursor arithmetic -> GenCursor.v
+# ----------------------------------------------------------------------------------
+class ProjFn(Fn):
+    """Projection of a method onto its integer bookkeeping: statements that neither assign a tracked
+    variable nor steer control flow are dropped; `return` yields the tuple `ret` of tracked names.
+    attrmap maps source attribute expressions to tracked names."""
+
+    def __init__(self, env, consts, attrmap, ret, effects, raises=False):
+        super().__init__(env, consts, raises=raises)
+        self.attrmap = attrmap
+        self.ret = ret
+        self.effects = effects      # unparsed call prefix -> tracked name receiving the argument
+        self.ranges = {}
+
+    def expr(self, e):
+        if isinstance(e, ast.Attribute):
+            t = ast.unparse(e)
+            if t in self.attrmap:
+                n = self.attrmap[t]
+                return (n, self.env[n])
+            if t in self.consts:
+                return (z(self.consts[t]), "Z")
+        if isinstance(e, ast.Compare) and len(e.ops) == 1 and isinstance(e.ops[0], (ast.In, ast.NotIn)) \
+                and isinstance(e.comparators[0], ast.Name) and e.comparators[0].id in self.ranges:
+            lo, hi = self.ranges[e.comparators[0].id]
+            l, lt = self.expr(e.left)
+            t = f"(({lo} <=? {l}) && ({l} <? {hi}))"
+            return (f"(negb {t})" if isinstance(e.ops[0], ast.NotIn) else t, "bool")
+        return super().expr(e)
+
+    def target_name(self, t):
+        u = ast.unparse(t)
+        if u in self.attrmap:
+            return self.attrmap[u]
+        return super().target_name(t)
+
+    def tracked(self, node):
+        names = set(self.env) | set(self.ranges)
+        for n in ast.walk(node):
+            if isinstance(n, ast.Name) and n.id in names:
+                return True
+            if isinstance(n, ast.Attribute) and ast.unparse(n) in self.attrmap:
+                return True
+        return False
+
+    def assigns_tracked(self, s):
+        for n in ast.walk(s):
+            if isinstance(n, (ast.Assign, ast.AugAssign)):
+                tg = n.targets if isinstance(n, ast.Assign) else [n.target]
+                for t in tg:
+                    u = ast.unparse(t)
+                    if u in self.attrmap or (isinstance(t, ast.Name) and (t.id in self.env or t.id in self.ranges)):
+                        return True
+        return False
+
+    def droppable(self, s):
+        if any(isinstance(n, (ast.Return, ast.Raise)) for n in ast.walk(s)):
+            return False
+        return not self.assigns_tracked(s)
+
+    def block(self, stmts, final):
+        if not stmts:
+            return super().block(stmts, final)
+        s, rest = stmts[0], stmts[1:]
+        if isinstance(s, ast.Return):
+            tup = "(" + ", ".join(self.ret) + ")" if len(self.ret) > 1 else self.ret[0]
+            for n in self.ret:
+                if n not in self.env:
+                    raise Untranslatable(f"return before {n} is defined")
+            self.ret_types.add("tuple")
+            return f"Ok {tup}" if self.raises else tup
+        # effect calls: self.point_source.seek(x) / ...read_n_points(x)
+        for n in ast.walk(s):
+            if isinstance(n, ast.Call) and ast.unparse(n.func) in self.effects and not isinstance(s, (ast.If, ast.For, ast.While)):
+                name = self.effects[ast.unparse(n.func)]
+                v, t = self.expr(n.args[0])
+                if t != "Z":
+                    raise Untranslatable("effect argument type")
+                self.env[name] = "Z"
+                tgt_ok = not self.assigns_tracked(s)
+                if not tgt_ok:
+                    raise Untranslatable("effect mixed with tracked assignment")
+                return f"let {name} := {v} in\n{self.block(rest, final)}"
+        if isinstance(s, ast.Assign) and len(s.targets) == 1 and isinstance(s.targets[0], ast.Name) \
+                and isinstance(s.value, ast.Call) and ast.unparse(s.value.func) == "range" and len(s.value.args) == 2:
+            lo = self.expr(s.value.args[0])[0]
+            hi = self.expr(s.value.args[1])[0]
+            nm = s.targets[0].id
+            self.ranges[nm] = (f"{nm}_lo", f"{nm}_hi")
+            self.env[f"{nm}_lo"] = "Z"
+            self.env[f"{nm}_hi"] = "Z"
+            return f"let {nm}_lo := {lo} in let {nm}_hi := {hi} in\n{self.block(rest, final)}"
+        if isinstance(s, ast.Assign) and len(s.targets) == 1 and isinstance(s.targets[0], ast.Name) \
+                and s.targets[0].id not in self.env:
+            try:
+                v, t = self.expr(s.value)
+            except Untranslatable:
+                v = None
+            if v is not None:
+                self.env[s.targets[0].id] = t
+                return f"let {s.targets[0].id} := {v} in\n{self.block(rest, final)}"
+        if isinstance(s, ast.If) and self.droppable(s):
+            return self.block(rest, final)
+        if isinstance(s, ast.If) and not self.tracked(s.test):
+            if self.droppable(s):
+                return self.block(rest, final)
+            raise Untranslatable(f"control flow on untracked condition {ast.unparse(s.test)}")
+        if isinstance(s, ast.If):
+            # if/elif chains where every branch assigns the same new names (ranges, ints)
+            return self.if_chain(s, rest, final)
+        if not isinstance(s, (ast.If, ast.Raise)) and self.droppable(s) and not (
+                isinstance(s, (ast.Assign, ast.AugAssign)) and self.assigns_tracked(s)):
+            if isinstance(s, (ast.Assign, ast.AugAssign, ast.Expr)):
+                return self.block(rest, final)
+        return super().block(stmts, final)
+
+    def if_chain(self, s, rest, final):
+        c = self.as_bool(*self.expr(s.test))
+        if self.always_returns(s.body):
+            save = (dict(self.env), dict(self.ranges))
+            a = self.block(list(s.body), None)
+            self.env, self.ranges = dict(save[0]), dict(save[1])
+            b = self.block(list(s.orelse) + rest, final)
+            return f"if {c} then ({a})\nelse ({b})"
+        if s.orelse and self.always_returns(s.orelse) and not self.always_returns(s.body):
+            save = (dict(self.env), dict(self.ranges))
+            b = self.block(list(s.orelse), None)
+            self.env, self.ranges = dict(save[0]), dict(save[1])
+            a = self.block(list(s.body) + rest, final)
+            return f"if {c} then ({a})\nelse ({b})"
+        # both branches fall through: continuation is duplicated into both (small functions only)
+        save = (dict(self.env), dict(self.ranges))
+        a = self.block(list(s.body) + rest, final)
+        self.env, self.ranges = dict(save[0]), dict(save[1])
+        b = self.block(list(s.orelse) + rest, final)
+        return f"if {c} then ({a})\nelse ({b})"
+
+
+def gen_cursor(repo):
+    o = Out("laspy/lasreader.py LasReader.read_points / seek, PointChunkIterator.__next__")
+    mod = parse(repo, "laspy/lasreader.py")
+    cls = find_class(mod, "LasReader")
+    attrmap = {"self.header.point_count": "point_count", "self.points_read": "points_read"}
+    consts = {"io.SEEK_SET": 0, "io.SEEK_CUR": 1, "io.SEEK_END": 2}
+
+    def rp():
+        fn = ProjFn({"point_count": "Z", "points_read": "Z", "n": "Z", "src_read": "Z"}, consts, attrmap,
+                    ["points_read", "src_read"], {"self.point_source.read_n_points": "src_read"})
+        f = find_func(cls, "read_points")
+        fn.ret_types = set()
+        body = fn.block(f.body, None)
+        body = textwrap.indent(body, "  ")
+        # src_read = -1 marks "no source access" (the early return)
+        return ("(* result: (new points_read, records requested from the source; -1 = source not touched) *)\n"
+                "Definition gen_read_points (point_count points_read n : Z) : Z * Z :=\n  let src_read := (-1) in\n" + body + ".\n")
+    o.add("gen_read_points", rp)
+
+    def sk():
+        fn = ProjFn({"point_count": "Z", "points_read": "Z", "pos": "Z", "whence": "Z"}, consts, attrmap,
+                    ["points_read", "src_seek"], {"self.point_source.seek": "src_seek"}, raises=True)
+        f = find_func(cls, "seek")
+        fn.ret_types = set()
+        body = fn.block(f.body, None)
+        body = textwrap.indent(body, "  ")
+        return ("(* result: (new points_read, point index the source was positioned at) *)\n"
+                "Definition gen_seek (point_count points_read pos whence : Z) : result (Z * Z) :=\n" + body + ".\n")
+    o.add("gen_seek", sk)
+
+    def it():
+        icls = find_class(mod, "PointChunkIterator")
+        f = find_func(icls, "__next__")
+        src = ast.unparse(f)
+        ok = ("self.reader.read_points(self.points_per_iteration)" in src and "if not points:" in src
+              and "raise StopIteration" in src and src.strip().endswith("return points"))
+        if not ok or len(f.body) != 3:
+            raise Untranslatable("PointChunkIterator.__next__ shape")
+        return "Definition gen_iter_stops_on_empty : bool := true.\n"
+    o.add("gen_iter", it)
+    return o
+
+
 TARGETS = {
     "GenGlobalEncoding.v": gen_global_encoding,
     "GenFormatBits.v": gen_format_bits,
     "GenHeaderLayout.v": gen_header_layout,
     "GenDims.v": gen_dims,
+    "GenCursor.v": gen_cursor,
 }
 
 
